@@ -558,6 +558,8 @@ func (x *Exec) step(fr *Frame, st *State, in ssa.Instruction) {
 		}
 	case *ssa.Select:
 		fr.regs[n] = x.selectOp(fr, st, n)
+	case *ssa.MakeChan:
+		fr.regs[n] = st.alloc()
 	case *ssa.Range:
 		mt, ok := n.X.Type().Underlying().(*types.Map)
 		if !ok {
@@ -636,15 +638,26 @@ func (x *Exec) initOpaque(st *State, t types.Type, addr *Term) {
 	}
 }
 
-// selectOp: only receives on context Done() channels are modelled (ready iff the context is cancelled).
+// selectOp: a receive on a context Done() channel is ready iff the context is cancelled. A receive on any other
+// channel may or may not be ready (arbitrary) and yields an arbitrary value of the element type: what other
+// goroutines send is not modelled. Sends in a select are not supported.
 func (x *Exec) selectOp(fr *Frame, st *State, n *ssa.Select) Value {
 	var ready []*Term
+	generic := false
 	for _, s := range n.States {
 		ch, ok := x.val(fr, st, s.Chan).(*Term)
-		if s.Dir != types.RecvOnly || !ok || ch.Op != "app" || ch.Name != "donechan" {
-			x.fail("select on a channel that is not a context Done() channel")
+		if s.Dir != types.RecvOnly || !ok {
+			x.fail("select with a send, or on an unsupported channel value")
 		}
-		ready = append(ready, Select(cancelledArr(st), ch.Args[0]))
+		if ch.Op == "app" && ch.Name == "donechan" {
+			ready = append(ready, Select(cancelledArr(st), ch.Args[0]))
+			continue
+		}
+		generic = true
+		ready = append(ready, Const(freshName("chanready"), BoolS))
+	}
+	if generic {
+		x.note("select receiving from a channel other goroutines send on: readiness and the received value are arbitrary (the senders are verified separately; interleaving is not modelled)", fr.fn.Name())
 	}
 	idx := Const(freshName("selidx"), IntS)
 	var cs []*Term
@@ -667,7 +680,13 @@ func (x *Exec) selectOp(fr *Frame, st *State, n *ssa.Select) Value {
 	out := TupleV{idx, False}
 	for _, s := range n.States {
 		if s.Dir == types.RecvOnly {
-			out = append(out, zeroValue(s.Chan.Type().Underlying().(*types.Chan).Elem()))
+			et := s.Chan.Type().Underlying().(*types.Chan).Elem()
+			ch := x.val(fr, st, s.Chan).(*Term)
+			if ch.Op == "app" && ch.Name == "donechan" {
+				out = append(out, zeroValue(et))
+			} else {
+				out = append(out, st.fresh(et, "recv"))
+			}
 		}
 	}
 	return out
